@@ -48,7 +48,7 @@ ASSUMPTIONS = [
     'temp dir, VERIF_TMP overrides) and are removed when the case ends',
 ]
 TRUSTED = ['pbt/netfs.py (models, FakeNetdev, FakeIptables)']
-BUDGET = {'quick': 4800, 'thorough': 320000}
+BUDGET = {'quick': 12000, 'thorough': 320000}
 
 CIDRS = ['10.10.0.0/30', '10.10.0.0/29', '10.10.0.0/29', '10.10.0.0/28']
 CIDR2 = [None, None, '10.10.1.0/30']
